@@ -46,4 +46,6 @@ RULES = [
     ("E-WAKER", pool2.E_WAKER_pool, ["default"]),
     # the abandoned attempt is continued: the pinned drop spawns exactly what as_delayed() returned, whenever it returned something
     ("P10s", pool2.P10_aspects("spawn", "keeps"), ["default"]),
+    # the hand-back of a released connection is never skipped under lock contention
+    ("P16b", pool2.no_try_lock, ["default"]),
 ]
